@@ -6,9 +6,13 @@ CONFIG = {'level': 'proof',
                  "worker_thread's loop with its four barrier waits; tied to the code by replaying the event log of "
                  'real runs (thread counts 2..16, tight and unbounded capacities, perturbed schedules) through the '
                  "model's transition function and by comparing the push sequence with the model's producer program",
-                 'that the archive bytes are a function of the batches as SETS (worker 0 sorts what it classifies; '
-                 'pack contents do not depend on arrival order inside a batch) is exercised by the byte-identity '
-                 'runs (sha256 over thread counts, capacities, perturbed schedules), not proved',
+                 'arrival order inside a batch is proved irrelevant (Lemmas/Canon.lean: the drained vector is sorted by '
+                 'the RawBufferedSegment order translated from the source before anything reads it; '
+                 'classified_state_schedule_independent: for ANY function F of the sorted batches the final state '
+                 'is the same in every execution, given distinct (sample, contig, place) keys - fix D13); that '
+                 'classification and the store phase ARE such a function, i.e. read no hidden input (thread-local '
+                 'ZSTD context history, hash-map iteration order, work stealing), is exercised by the byte-identity '
+                 'runs (sha256 over thread counts, capacities, perturbed schedules) and by C12, not proved',
                  'PrioSep is proved for the programs generated in multi-file and single-file mode; the '
                  'RAGC_SYNC_PER_SAMPLE debugging path and library users that call push/sync_and_flush in other '
                  'patterns are outside'],
@@ -25,7 +29,8 @@ MANIFEST = {'category': 'proof',
          "compared with the model's program, and their batches (buffer appends between barrier-1 releases) are "
          'compared with the partition. Byte identity (sha256) is checked over thread counts 1..16, capacities from '
          'one contig to unbounded, and perturbed schedules. That the archive is a function of the batches as sets is '
-         'exercised by those byte-identity runs, not proved.',
+         'exercised by those byte-identity runs; proved: the drained batch is sorted (order translated from the source) '
+         'before classification, so arrival order inside a batch cannot matter (classified_state_schedule_independent).',
  'design_ref': 'DESIGN.md §5 C04',
  'technique': 'Lean 4 proof over a guarded-action transition system + trace validation of real runs + byte-identity '
               'runs'}
